@@ -12,7 +12,7 @@ from vf import common, x86space, gnuref, x86ref
 PROPERTY = 'C01'
 RULE = ('every opcode cell of the 1-byte, 0F, 0F38 and 0F3A maps x all 256 ModRM values x SIB classes (4 per ModRM quick, 16 thorough) x '
         'deterministic filler classes (00/7f/80/ff/..., plus one seeded random filler) x prefixes none and 66 (quick), + 67, every segment, '
-        'F2, F3, F0 where the reference finds them meaningful (thorough; quick on a reduced ModRM set). Restricted, as the statement says, to '
+        'F2, F3, F0 where the reference finds them meaningful (thorough; quick on a reduced ModRM set), + the complete 16-bit ModRM table (all 256 ModRM values of every opcode cell under 67; thorough also 66 67 and 67 2e). Restricted, as the statement says, to '
         'strings that miasmX and objdump both accept as one instruction without superfluous prefixes. A case = the byte string; non-trivial = '
         'both decoders accept; classes = (opcode cell, prefix, mod).')
 ASSUMPTIONS = ['GNU binutils 2.40 (objdump -M intel, as --32) is the reading of IA-32 bytes and Intel text; LLVM 14 llvm-objdump is the tie-breaker: '
@@ -137,6 +137,7 @@ def shards(tier, seed):
     out = [('cells', i, per) for i in range(0, len(cl), per)]
     out += [('prefixes', i, 32) for i in range(0, len(cl), 32)]
     out += [('addr16', i, 16) for i in range(0, len(cl), 16)]
+    out += [('grids', 0, 0)]
     return out
 
 
@@ -149,6 +150,8 @@ def run_shard(shard, tier, seed):
         for cell in cl:
             for b, cls in x86space.strings_for_cell(cell, tier, seed, prefixes=x86space.STD_PREFIXES, sibs=sibs, nfill=1 if tier == 'quick' else 3):
                 items.append((b, cls))
+    elif shard[0] == 'grids':
+        items = list(x86space.sib_grid(tier)) + list(x86space.disp_grid(tier))
     elif shard[0] == 'addr16':
         # the 16-bit ModRM table (67 prefix): every ModRM value of every opcode cell
         for cell in cl:
